@@ -437,6 +437,128 @@ pub fn c6(a: i64, b: i64, c: i64, d: i64, e: i64, f: i64) {
     }
 }
 
+
+const THREAD_PRELUDE: &str = r#"core::arch::global_asm!(
+    ".globl spawn_raw",
+    "spawn_raw:",
+    "sub rdx, 16",
+    "mov [rdx], rdi",
+    "mov [rdx + 8], rsi",
+    "mov r10, rcx",
+    "mov rsi, rdx",
+    "mov rdx, rcx",
+    "mov edi, 0x350f00",
+    "xor r8d, r8d",
+    "mov eax, 56",
+    "syscall",
+    "test rax, rax",
+    "jnz 2f",
+    "xor ebp, ebp",
+    "pop rax",
+    "pop rdi",
+    "call rax",
+    "xor edi, edi",
+    "mov eax, 60",
+    "syscall",
+    "2:",
+    "ret",
+);
+unsafe extern "C" {
+    fn spawn_raw(f: extern "C" fn(u64), arg: u64, stack_top: *mut u8, tid_slot: *mut u32) -> isize;
+}
+#[repr(align(16))]
+pub struct Stack([u8; 32768]);
+pub static mut STACKS: [Stack; 4] = [Stack([0; 32768]), Stack([0; 32768]), Stack([0; 32768]), Stack([0; 32768])];
+pub static mut TIDS: [u32; 4] = [0; 4];
+pub static COUNTER: core::sync::atomic::AtomicU64 = core::sync::atomic::AtomicU64::new(0);
+pub static PASSES: [core::sync::atomic::AtomicU64; 4] = [const { core::sync::atomic::AtomicU64::new(0) }; 4];
+#[inline(never)]
+fn sys4(n: isize, a: isize, b: isize, c: isize, d: isize) -> isize {
+    let r: isize;
+    unsafe {
+        core::arch::asm!("syscall", inlateout("rax") n => r, in("rdi") a, in("rsi") b, in("rdx") c, in("r10") d, out("rcx") _, out("r11") _, options(nostack));
+    }
+    r
+}
+#[inline(never)]
+fn spawn(slot: usize, f: extern "C" fn(u64), arg: u64) {
+    unsafe {
+        let top = ((&raw mut STACKS) as *mut u8).add((slot + 1) * 32768);
+        let tid = ((&raw mut TIDS) as *mut u32).add(slot);
+        core::ptr::write_volatile(tid, 1);
+        spawn_raw(f, arg, top, tid);
+    }
+}
+#[inline(never)]
+fn join(slot: usize) {
+    unsafe {
+        let tid = ((&raw mut TIDS) as *mut u32).add(slot);
+        loop {
+            let v = core::ptr::read_volatile(tid);
+            if v == 0 {
+                break;
+            }
+            sys4(202, tid as isize, 0, v as isize, 0);
+        }
+    }
+}
+"#;
+
+/// A libc-free multi-threaded program (raw clone): `workers` threads each call `bump` `iters`
+/// times while main calls `mwork` `main_iters` times, then joins and prints the counter.
+pub fn generate_mt(workers: usize, iters: u64, main_iters: u64, spin: u64) -> Program {
+    let mut s = Src::new();
+    s.raw(SIGNAL_PRELUDE);
+    s.raw(THREAD_PRELUDE);
+    s.l("#[inline(never)]", None);
+    s.l("fn bump(w: u64, i: u64) -> u64 {", None);
+    s.l("    let old = COUNTER.fetch_add(1, core::sync::atomic::Ordering::SeqCst);", Some("bump.1"));
+    s.l("    PASSES[w as usize].fetch_add(1, core::sync::atomic::Ordering::SeqCst);", Some("bump.2"));
+    s.l("    old + i", Some("bump.3"));
+    s.l("}", None);
+    s.l("#[inline(never)]", None);
+    s.l("extern \"C\" fn worker(w: u64) {", None);
+    s.l("    let mut i = 0u64;", Some("worker.1"));
+    s.l(&format!("    while i < {iters} {{"), Some("worker.loop"));
+    s.l("        bump(w, i);", Some("worker.call"));
+    s.l("        i += 1;", Some("worker.inc"));
+    s.l("    }", None);
+    s.l("}", Some("worker.end"));
+    s.l("#[inline(never)]", None);
+    s.l("fn mwork(x: u64) -> u64 {", None);
+    s.l("    let y = x * 3;", Some("mwork.1"));
+    s.l("    let mut j = 0u64;", Some("mwork.j"));
+    s.l(&format!("    while j < {spin} {{"), Some("mwork.loop"));
+    s.l("        j = core::hint::black_box(j) + 1;", Some("mwork.spin"));
+    s.l("    }", None);
+    s.l("    let z = y + 1;", Some("mwork.2"));
+    s.l("    z", Some("mwork.3"));
+    s.l("}", None);
+    s.l("#[unsafe(no_mangle)]", None);
+    s.l("pub extern \"C\" fn main(_argc: i32, _argv: *const *const u8) -> i32 {", None);
+    s.l("    let mut a: u64 = unsafe { core::ptr::read_volatile(&raw const ACC) };", Some("main.init"));
+    s.l("    install(10);", None);
+    s.l("    install(12);", None);
+    s.l("    install(14);", None);
+    for w in 0..workers {
+        s.l(&format!("    spawn({w}, worker, {w});"), Some(&format!("main.spawn{w}")));
+    }
+    s.l("    let mut k = 0u64;", Some("main.k"));
+    s.l(&format!("    while k < {main_iters} {{"), Some("main.loop"));
+    s.l("        a = mwork(a) % 1000;", Some("main.call"));
+    s.l("        k += 1;", Some("main.inc"));
+    s.l("    }", None);
+    for w in 0..workers {
+        s.l(&format!("    join({w});"), Some(&format!("main.join{w}")));
+    }
+    s.l("    emit(COUNTER.load(core::sync::atomic::Ordering::SeqCst));", Some("main.emit"));
+    s.l("    emit(hits());", Some("main.hits"));
+    s.l("    (a % 200) as i32", Some("main.ret"));
+    s.l("}", None);
+    let name = format!("mt_w{workers}_i{iters}_m{main_iters}_s{spin}");
+    Program { name: name.clone(), src_file: format!("{name}.rs"), source: s.text, lines: s.marks, functions: vec!["main".into(), "emit".into(), "bump".into(), "worker".into(), "mwork".into(), "spawn".into(), "join".into()] }
+}
+
 /// A program with a caller-supplied function text and one statement in main that calls it.
 pub fn generate_custom(name: &str, fn_text: &str, main_stmt: &str) -> Program {
     let mut s = Src::new();
